@@ -219,7 +219,9 @@ fn is_zero_size_impl<'a>(
         }) => {
             // zero-sized array
             *length_width == 0
-                && ((length_range.clone().count() == 1 && *length_range.start() == 0)
+                && ((!length_range.is_empty()
+                    && length_range.start() == length_range.end()
+                    && *length_range.start() == 0)
                     || is_zero_size_impl(elements.as_str(), schema, stack)?)
         }
         Ok(Definition::Tuple { elements }) => all(elements.iter(), |key| *key, schema, stack)?,
